@@ -211,6 +211,36 @@ pub fn run(args: &Args) -> Report {
             }
         }
     }
+    // hard fault behind a rolled-back look-ahead: the last tuple of a value list is incomplete and the next token (the
+    // /end) stands some lines further down. The sequence loop reads on to that token, gives up and rewinds; the problem is
+    // then detected at the first token of the incomplete tuple, and that is the line both modes have to report.
+    if args.replay.is_none() {
+        for (k, (head, tuple_ok, tuple_bad, tag)) in [
+            ("/begin COMPU_VTAB t \"\" TAB_VERB 2", "1 \"a\"", "2", "COMPU_VTAB"),
+            ("/begin COMPU_TAB t \"\" TAB_INTP 2", "1 1", "2", "COMPU_TAB"),
+            ("/begin COMPU_VTAB_RANGE t \"\" 2", "1 2 \"a\"", "3 4", "COMPU_VTAB_RANGE"),
+        ]
+        .iter()
+        .enumerate()
+        {
+            for gap in 1..=3usize {
+                for lead in 0..=2usize {
+                    let mut text = String::from("ASAP2_VERSION 1 71\n/begin PROJECT p \"\"\n/begin MODULE m \"\"\n");
+                    text.push_str(&"\n".repeat(lead));
+                    text.push_str(head);
+                    text.push('\n');
+                    text.push_str(tuple_ok);
+                    text.push('\n');
+                    text.push_str(tuple_bad);
+                    text.push_str(&"\n".repeat(gap));
+                    text.push_str(&format!("/end {tag}\n/end MODULE\n/end PROJECT\n"));
+                    let line = (3 + lead + 3) as u32; // the line of the first token of the incomplete tuple
+                    let _ = k;
+                    cases.push(Case { text, family: "hard:incomplete-tuple", expect: Some(("UnexpectedTokenType", line)) });
+                }
+            }
+        }
+    }
     for (i, c) in cases.iter().enumerate() {
         let text = &c.text;
         rep.case(text, text.split_whitespace().count() >= 10);
@@ -270,7 +300,17 @@ pub fn run(args: &Args) -> Report {
                     rep.fail("strict-too-strict", input.clone(), format!("strict loading fails ({es}) although non-strict loading reports nothing but deprecation notices [{lt}]"));
                 }
             }
-            (Loaded::Err(_), Loaded::Err(_)) => rep.bump("outcome:both-err"),
+            (Loaded::Err(es), Loaded::Err(en)) => {
+                rep.bump("outcome:both-err");
+                if let (Some((kind, line)), "hard:incomplete-tuple") = (&c.expect, c.family) {
+                    let want = format!("{kind}@{line}");
+                    for (mode, e) in [("strict", es), ("non-strict", en)] {
+                        if *e != want {
+                            rep.fail("diagnostic-line", input.clone(), format!("the incomplete tuple starts on line {line}: {mode} loading reports {e}, expected {want}"));
+                        }
+                    }
+                }
+            }
             _ => {}
         }
         // diagnostics carry the line of the token at which the problem was detected
